@@ -82,30 +82,28 @@ Print Assumptions C11_string_tokens_read_back.
 
 Theorem C11_key_tokens_shape :
   forall is_print valid_ident k,
-    (valid_ident k = true /\ gen_key is_print valid_ident k = [(TokenIdent, utf8 k)]) \/
-    (valid_ident k = false /\ gen_key is_print valid_ident k = gen_string is_print k).
+    (valid_ident k = true /\ utf8 k <> b_for /\ gen_key is_print valid_ident k = [(TokenIdent, utf8 k)]) \/
+    ((valid_ident k = false \/ utf8 k = b_for) /\ gen_key is_print valid_ident k = gen_string is_print k).
 Proof. exact gen_key_shape. Qed.
 Print Assumptions C11_key_tokens_shape.
 
-(* ---- REFUTED: mapping whose first key is `for` (DESIGN §9 #5) -------------------- *)
-Theorem C11_value_roundtrip_refuted :
-  forall is_print valid_ident, valid_ident k_for = true ->
-  forall x r,
-    (exists rest, gen_value is_print valid_ident (VMap ((k_for, x) :: r))
-                  = t_obrace :: t_newline :: (TokenIdent, b_for) :: t_equal :: rest) /\
-    reads_as_for_expr (gen_value is_print valid_ident (VMap ((k_for, x) :: r))) = true.
-Proof. exact value_roundtrip_refuted. Qed.
-Print Assumptions C11_value_roundtrip_refuted.
+(* ---- the `for` look-ahead (DESIGN §9 #5, fixed in /repo) ----------------------- *)
+(* For EVERY is_print, valid_ident, every mapping (map or object, any keys, any
+   element values) and whatever tokens follow: the generated tokens are never
+   taken for a for-expression by parseObjectCons' look-ahead. Nested mappings
+   are instances of the same statement at their own position. *)
+Theorem C11_mapping_never_reads_as_for :
+  forall is_print valid_ident kvs rest,
+    reads_as_for_expr (gen_value is_print valid_ident (VMap kvs) ++ rest) = false.
+Proof. exact mapping_never_reads_as_for. Qed.
+Print Assumptions C11_mapping_never_reads_as_for.
 
-Theorem C11_keys_roundtrip_partial :
-  forall is_print valid_ident kvs,
-    match kvs with
-    | (k, _) :: _ => Forall valid_scalar k /\ k <> k_for
-    | [] => True
-    end ->
-    reads_as_for_expr (gen_value is_print valid_ident (VMap kvs)) = false.
-Proof. exact keys_roundtrip_partial. Qed.
-Print Assumptions C11_keys_roundtrip_partial.
+(* the key `for` is written as the quoted string "for", whatever ValidIdentifier says *)
+Theorem C11_key_for_is_quoted :
+  forall is_print valid_ident,
+    gen_key is_print valid_ident [102; 111; 114] = gen_string is_print [102; 111; 114].
+Proof. exact key_for_is_quoted. Qed.
+Print Assumptions C11_key_for_is_quoted.
 
 (* ---- traversals ---------------------------------------------------------------- *)
 Theorem C11_traversal_shape :
@@ -139,15 +137,37 @@ Theorem C11_label_roundtrip_syntax :
 Proof. exact label_roundtrip_syntax. Qed.
 Print Assumptions C11_label_roundtrip_syntax.
 
-(* hclwrite after Bytes() + ParseConfig (blockLabels.Current joining all literal
-   tokens of the re-lexed label): every label comes back *)
-Theorem C11_label_relex_roundtrip :
+(* hclwrite: blockLabels.Replace (generate, re-scan) then blockLabels.Current
+   (join the literal tokens). For EVERY is_print with is_print '{' = true and all
+   labels of Unicode scalar values: the re-scan succeeds for every label,
+   Labels() of the block as built returns the labels supplied, and writing the
+   file out and loading it again (Bytes() + hclwrite.ParseConfig) yields the
+   same label tokens, hence the same Labels(). *)
+Theorem C11_label_roundtrip :
   forall is_print, is_print 123 = true ->
   forall ls, Forall (Forall valid_scalar) ls ->
-    exists nodes, map (fun l => relex_quoted (gen_string is_print l)) ls = map Some nodes /\
-                  current_labels (map LQuoted nodes) = map utf8 ls.
-Proof. exact labels_relex_roundtrip. Qed.
-Print Assumptions C11_label_relex_roundtrip.
+    exists nodes, replace_labels is_print ls = map Some nodes /\
+                  current_labels (map LQuoted nodes) = map utf8 ls /\
+                  map relex_quoted nodes = map Some nodes.
+Proof. exact labels_roundtrip. Qed.
+Print Assumptions C11_label_roundtrip.
+
+(* per label, with the bytes that Bytes() writes for it *)
+Theorem C11_label_replace_roundtrip :
+  forall is_print, is_print 123 = true ->
+  forall l, Forall valid_scalar l ->
+    exists ts, replace_label is_print l = Some ts /\
+               tok_bytes ts = 34 :: escape is_print l ++ [34] /\
+               current_label (LQuoted ts) = [utf8 l].
+Proof. exact label_replace_roundtrip. Qed.
+Print Assumptions C11_label_replace_roundtrip.
+
+(* the scanner tokens of a closed quoted string tile its bytes *)
+Theorem C11_quoted_tokens_tile :
+  forall bs ps rest, lex_quoted bs = (ps, LClosed rest) ->
+    bs = flat_map piece_bytes ps ++ 34 :: rest.
+Proof. exact (fun bs => lexq_tiles bs MG). Qed.
+Print Assumptions C11_quoted_tokens_tile.
 
 (* a label without '$' and '%' is lexed as at most one literal token *)
 Theorem C11_label_relex_plain :
@@ -156,33 +176,23 @@ Theorem C11_label_relex_plain :
 Proof. exact label_relex_plain. Qed.
 Print Assumptions C11_label_relex_plain.
 
-(* HISTORICAL (DESIGN §9 #3, since fixed in /repo): a reader accepting exactly
-   one literal token drops the label  a$b  (three literal tokens); the current
-   reader returns it *)
+(* HISTORICAL (DESIGN §9 #3 and the "$${" finding, both fixed in /repo): why
+   Current must join the literal tokens and Replace must re-scan *)
 Theorem C11_label_single_token_reader_refuted :
   forall is_print, is_print 97 = true -> is_print 98 = true ->
-    exists l ts, Forall valid_scalar l /\ relex_quoted (gen_string is_print l) = Some ts /\
+    exists l ts, Forall valid_scalar l /\ replace_label is_print l = Some ts /\
                  current_label_single_token ts = [] /\ lit_count is_print l = 3%nat /\
                  current_label (LQuoted ts) = [utf8 l].
 Proof. exact label_single_token_reader_refuted. Qed.
 Print Assumptions C11_label_single_token_reader_refuted.
 
-(* Labels() of the block as built *)
-Theorem C11_label_fresh_roundtrip :
+Theorem C11_label_whole_token_unescape_refuted :
   forall is_print, is_print 123 = true ->
-  forall ls, Forall (fun l => Forall valid_scalar l /\ no_double l) ls ->
-    current_labels (map LQuoted (replace_labels is_print ls)) = map utf8 ls.
-Proof. exact labels_fresh_roundtrip. Qed.
-Print Assumptions C11_label_fresh_roundtrip.
-
-(* REFUTED (new finding): label  $${  comes back as  $$${ *)
-Theorem C11_label_fresh_refuted :
-  forall is_print, is_print 123 = true ->
-    exists l, Forall valid_scalar l /\
-              current_label (LQuoted (gen_string is_print l)) = [[36; 36; 36; 123]] /\
-              utf8 l = [36; 36; 123].
-Proof. exact label_fresh_refuted. Qed.
-Print Assumptions C11_label_fresh_refuted.
+    exists l, Forall valid_scalar l /\ utf8 l = [36; 36; 123] /\
+              unescape (escape is_print l) = UOk [36; 36; 36; 123] [] /\
+              exists ts, replace_label is_print l = Some ts /\ current_label (LQuoted ts) = [utf8 l].
+Proof. exact label_whole_token_unescape_refuted. Qed.
+Print Assumptions C11_label_whole_token_unescape_refuted.
 
 (* Non-vacuity: a concrete is_print (printable ASCII and U+1F600) and the string
    a, dollar, open brace, double quote, newline, U+0001, U+1F600, U+E0001, percent *)
